@@ -432,7 +432,8 @@ def add_hpke(reg, new_other_curve=False):
     reg.add(Contract(HC + '.__init__',
                      params={'receiver_key': KEY, 'enc': 'bytes|none', 'sender_key': KEY + '|none', 'psk_pair': 'tuple(bytes,bytes)',
                              'info': 'bytes', 'aead_id': 'int[1..3]', 'mode': 'int[0..3]'},
-                     options={'assume_valid': False}, requires=[one_private],
+                     # a refusing constructor may already have assigned some fields of the (then unreachable) object
+                     options={'assume_valid': False, 'on_raise_modifies': ['self.' + f for f in FIELDS]}, requires=[one_private],
                      # invalid PSK / key / enc combinations are refused at set-up, and nothing else is
                      raises={'DeserializeError': ('iff', pk_bad),
                              'ValueError': ('iff', 'disj(%s, %s)' % (static_bad, dh_bad))},
@@ -523,12 +524,14 @@ def add_history_lemmas(reg):
 
 # ---------------------------------------------------------------------------------------------- spec-level lemma units
 
-def lemma_unit(prop, uid, build_registry, name, variables, hyps, steps, doc=''):
+def lemma_unit(prop, uid, build_registry, name, variables, hyps, steps, model_hint=()):
     """A spec-level lemma, discharged by SMT without any code: for all `variables` (name -> type), under `hyps` (named
     clauses), every clause of `steps` holds.  Stepwise (DESIGN 2.6): the steps are proved in order; each names the earlier
-    facts it uses -- (clause, [names of hypotheses / earlier steps]) -- and only those (plus the defining facts of the spec
-    symbols) are given to the solver, which keeps each query inside one theory.  Dropping hypotheses is sound for validity; a
-    `sat`/`unknown` answer of such a weakened query is reported as undecided, never as a violation."""
+    facts it uses -- (clause, [names of hypotheses / earlier steps], use the defining facts of the spec symbols?) -- and only
+    those are given to the solver, which keeps each query inside one theory.  Dropping hypotheses is sound for validity; a
+    `sat`/`unknown` answer of such a weakened query is reported as undecided, never as a violation.  Solver configurations
+    tried per step: z3's legacy simplex (arith.solver=2: decides the div/mod-by-constant steps at once), then the default.
+    model_hint: extra clauses that pin down a model for the vacuity guard (hypotheses satisfiable)."""
     from vf.core import Unit
 
     def run():
@@ -552,18 +555,17 @@ def lemma_unit(prop, uid, build_registry, name, variables, hyps, steps, doc=''):
         t_all = time.time()
         s0 = z3.Solver()
         s0.set('timeout', 10000)
-        s0.add(*(types + list(known.values())))
+        s0.add(*(types + list(known.values()) + [_as_z3(eval_clause(E, cl, st)) for cl in model_hint]))
         vac = s0.check()
         results.append({'id': '%s.%s.hypotheses_satisfiable' % (prop, name), 'kind': 'vacuity', 'clause': 'the hypotheses of the lemma are satisfiable',
                         'status': 'discharged' if vac == z3.sat else 'undecided', 'backend': 'z3', 'seconds': 0.0,
                         'detail': '' if vac == z3.sat else 'hypotheses: %s' % vac, 'witness': None})
-        for nm, (cl, uses) in steps.items():
-            n0 = len(st.pc)
+        for nm, (cl, uses, with_facts) in steps.items():
             goal = _as_z3(eval_clause(E, cl, st))
-            facts = [t for t in st.pc if t.get_id() in st.facts]       # defining facts of the spec symbols met so far
+            facts = [t for t in st.pc if t.get_id() in st.facts] if with_facts else []   # defining facts of the spec symbols
             hs = types + facts + [known[u] for u in uses]
             status, backend, t0 = 'undecided', 'z3', time.time()
-            for cfg in ({}, {'arith.solver': 2}, {'arith.solver': 2, 'random_seed': 7}):
+            for cfg in ({'arith.solver': 2}, {}, {'arith.solver': 2, 'random_seed': 7}):
                 s = z3.Solver()
                 s.set('timeout', 20000)
                 for k, v in cfg.items():
@@ -594,15 +596,15 @@ def nonce_injective_unit(prop):
             'same_nonce': '%snonce(base, s1) == %snonce(base, s2)' % (R, R)}
     steps = {}
     for k in range(12):         # byte k of the nonce holds digit 11 - k of the sequence number
-        steps['byte%d' % k] = ('nth(%snonce(base, s1), %d) == nth(%snonce(base, s2), %d)' % (R, k, R, k), ['same_nonce'])
+        steps['byte%d' % k] = ('nth(%snonce(base, s1), %d) == nth(%snonce(base, s2), %d)' % (R, k, R, k), ['same_nonce'], False)
     for k in range(12):
-        steps['digit%d' % k] = ('(s1 // 256 ** %d) %% 256 == (s2 // 256 ** %d) %% 256' % (k, k), ['range', 'byte%d' % (11 - k)])
-    steps['rem0'] = ('s1 % 1 == s2 % 1', [])
+        steps['digit%d' % k] = ('(s1 // 256 ** %d) %% 256 == (s2 // 256 ** %d) %% 256' % (k, k), ['range', 'byte%d' % (11 - k)], True)
+    steps['rem0'] = ('s1 % 1 == s2 % 1', [], False)
     for k in range(12):
-        steps['rem%d' % (k + 1)] = ('s1 %% 256 ** %d == s2 %% 256 ** %d' % (k + 1, k + 1), ['range', 'rem%d' % k, 'digit%d' % k])
-    steps['injective'] = ('s1 == s2', ['range', 'rem12'])
+        steps['rem%d' % (k + 1)] = ('s1 %% 256 ** %d == s2 %% 256 ** %d' % (k + 1, k + 1), ['range', 'rem%d' % k, 'digit%d' % k], False)
+    steps['injective'] = ('s1 == s2', ['range', 'rem12'], False)
     return lemma_unit(prop, 'hpke.nonce_injective', registry, 'hpke.nonce_injective',
-                      {'base': 'bytes[12]', 's1': 'int', 's2': 'int'}, hyps, steps)
+                      {'base': 'bytes[12]', 's1': 'int', 's2': 'int'}, hyps, steps, model_hint=['s1 == 5', 's2 == 5', 'base == bytes(12)'])
 
 
 def registry(curve=None, new_other_curve=False):
@@ -621,10 +623,34 @@ def _slug(curve):
     return curve.replace('NIST ', '').replace('-', '').replace('Curve', 'X')
 
 
+ALL_CURVES = HPKE_CURVES + ('NIST P-192', 'NIST P-224', 'Ed25519', 'Ed448')
+
+
 def units(prop, tier):
     from vf.pyunit import pyvc_unit
+    S = 'spec.rfc9180.'
     if prop == 'C15':
-        return [pyvc_unit(prop, 'hpke.labeled', registry, [H + '_labeled_extract', H + '_labeled_expand', H + '_extract_and_expand']),
-                pyvc_unit(prop, 'hpke.psk_inputs', registry, [HC + '._verify_psk_inputs']),
-                pyvc_unit(prop, 'hpke.history', registry, [HC + '._new_cipher', HC + '.seal', HC + '.unseal'])]
+        us = [pyvc_unit(prop, 'hpke.labeled', registry, [H + '_labeled_extract', H + '_labeled_expand', H + '_extract_and_expand']),
+              pyvc_unit(prop, 'hpke.psk_inputs', registry, [HC + '._verify_psk_inputs']),
+              pyvc_unit(prop, 'hpke.key_schedule', registry, [HC + '._key_schedule']),
+              pyvc_unit(prop, 'hpke.new_cipher', registry, [HC + '._new_cipher'], weight=3),
+              pyvc_unit(prop, 'hpke.seal', registry, [HC + '.seal']),
+              pyvc_unit(prop, 'hpke.unseal', registry, [HC + '.unseal'], weight=3),
+              pyvc_unit(prop, 'hpke.history_steps', registry, [S + 'receiver_step', S + 'sender_step']),
+              nonce_injective_unit(prop),
+              pyvc_unit(prop, 'hpke.new.other_curve', lambda: registry(None, True), [H + 'new'], weight=3)]
+        for c in HPKE_CURVES:
+            us.append(pyvc_unit(prop, 'hpke.kem.' + _slug(c), registry_for(c), [HC + '._encap', HC + '._decap'], weight=5))
+        for c in ALL_CURVES:
+            w = 6 if c in HPKE_CURVES else 1
+            us.append(pyvc_unit(prop, 'hpke.init.' + _slug(c), registry_for(c), [HC + '.__init__'], weight=w))
+            us.append(pyvc_unit(prop, 'hpke.new.' + _slug(c), registry_for(c), [H + 'new'], weight=w + 1))
+        return us
+    if prop == 'C11':
+        # successive HPKE messages never share a nonce: _new_cipher (nonce == base_nonce xor I2OSP(seq, 12), seq' = seq + 1, refusal at
+        # the limit with nothing changed), seal, the sender's induction step, and injectivity of the nonce in seq
+        return [pyvc_unit(prop, 'hpke.new_cipher', registry, [HC + '._new_cipher'], weight=3),
+                pyvc_unit(prop, 'hpke.seal', registry, [HC + '.seal']),
+                pyvc_unit(prop, 'hpke.sender_step', registry, [S + 'sender_step']),
+                nonce_injective_unit(prop)]
     return []
